@@ -129,10 +129,10 @@ func build(x *mc.X, c config) *env {
 		x.AddEvent(&mc.Event{Name: fmt.Sprintf("exec%d:complete-fail", j), Free: !c.failCost, Cost: failCost, Enabled: canComplete, Fire: send(cmdFail)})
 	}
 	x.AddEvent(&mc.Event{Name: "shutdown", Free: c.shutdownCost == 0, Cost: c.shutdownCost,
-		Enabled: locked(func() bool { return !e.shutdown && !e.done }),
+		Enabled: locked(func() bool { return !e.shutdown && !e.done && !e.atLate }),
 		Fire:    e.beginShutdown})
 	x.AddEvent(&mc.Event{Name: "clock+45s", Cost: 1,
-		Enabled: locked(func() bool { return !e.done && e.mayThink && e.jumps < e.cfg.maxJumps }),
+		Enabled: locked(func() bool { return !e.done && e.mayThink && e.jumps < e.cfg.maxJumps && !e.atLate }),
 		Fire: func() {
 			e.mu.Lock()
 			e.jumps++
@@ -213,7 +213,7 @@ func (e *env) key() string {
 		}
 	}
 	// Worker position flags and monitors.
-	fmt.Fprintf(&b, "|w=%v%v%v%v%v%v%v%v%v%v", e.started, e.done, e.atHook, e.inSelect, e.expectBackoff, e.runBoundary, e.termBefore, e.now1Pending, e.mustExit, e.overWait)
+	fmt.Fprintf(&b, "|w=%v%v%v%v%v%v%v%v%v%v%v", e.started, e.done, e.atHook, e.inSelect, e.expectBackoff, e.runBoundary, e.termBefore, e.now1Pending, e.mustExit, e.overWait, e.cfg.late && e.pastSelect && !e.runBoundary)
 	d := "-"
 	if e.mayThink {
 		d = rel(e.d, e.now)
